@@ -67,10 +67,10 @@ theorem fanOut_logs (cfg : RCfg) (es : List Entry) (idx : Nat) (ws : List Worker
   induction es generalizing idx ws ex with
   | nil => simp [fanOut, fanOutTrace]
   | cons e es ih =>
-    have hlt : workerOf ws.length e idx < ws.length := by
+    have hlt : workerOf cfg ws.length e idx < ws.length := by
       unfold workerOf; split <;> exact Nat.mod_lt _ hn
     simp only [fanOut, fanOutTrace]
-    generalize hi : workerOf ws.length e idx = i at hlt ⊢
+    generalize hi : workerOf cfg ws.length e idx = i at hlt ⊢
     have hdrop := workerStep_log_drop cfg (ws.getD i {}) ex e
     generalize hstep : workerStep cfg (ws.getD i {}) ex e = r at hdrop ⊢
     obtain ⟨w', ex', ok⟩ := r
